@@ -74,9 +74,9 @@ PROPS = {
     },
     "C01": {
         "pkg": "hreader", "test": "TestC01", "level": "exploration",
-        "quick": T(16, 0, timeout=900, fixed=["TestC01_LateConsumer"], tests=[{"test": "TestC01", "checks": 50}, {"test": "TestC01_Repeat", "checks": 20}]),
-        "thorough": T(16, 0, timeout=7000, fixed=["TestC01_LateConsumer"], tests=[{"test": "TestC01", "checks": 1500}, {"test": "TestC01_Repeat", "checks": 600}]),
-        "rule": "rapid-generated catalogs (1..3 pchannels per side, 1..3 collections x 1..2 shards on shared pchannels, default + named partition, default/named database, 40% skewed downstream placement, "
+        "quick": T(16, 0, timeout=900, fixed=["TestC01_LateConsumer"], tests=[{"test": "TestC01", "checks": 50}, {"test": "TestC01_Repeat", "checks": 20}, {"test": "TestC01_Drop", "checks": 25}]),
+        "thorough": T(16, 0, timeout=7000, fixed=["TestC01_LateConsumer"], tests=[{"test": "TestC01", "checks": 1500}, {"test": "TestC01_Repeat", "checks": 600}, {"test": "TestC01_Drop", "checks": 800}]),
+        "rule": "TestC01_Drop: a multi-shard collection whose stream contains a drop-partition message (same time on every shard), shards read with a drawn skew; inserts and deletes of the partition occur only before the drop of their own shard and must all be handed over, also on a lagging shard after another shard passed the drop. rapid-generated catalogs (1..3 pchannels per side, 1..3 collections x 1..2 shards on shared pchannels, default + named partition, default/named database, 40% skewed downstream placement, "
                 "3% late partition ids, 3% collections created downstream only by the create event), per-shard scripts of 1..7 packs (BeginTs=0 first packs, 0..3 messages of insert/delete/tick/create*/unsupported, "
                 "equal-timestamp groups, clock skew 0..120 s, message positions nil/pchannel/vchannel) and a drawn interleaving of StartReadCollection/AddPartition/feed actions against the real replicateChannelManager; "
                 "after quiescence (goroutine-dump based) a two-sided oracle: no invention, no duplicate, completeness, source-time order (deletes first on ties), payload proto.Equal modulo the rewritable fields, per-stream pack order "
